@@ -317,6 +317,8 @@ class SymSeq(Sym):
         self.items.append(x)
 
     def __iadd__(self, o):
+        if self.kind != "bytearray":
+            return self + o                  # bytes are immutable: += makes a new object, the caller's one is untouched
         self.extend(o)
         return self
 
@@ -346,7 +348,14 @@ class SymSeq(Sym):
     def __mul__(self, n):
         if isinstance(n, int):
             return SymSeq(self.items * n, self.kind)
+        if isinstance(n, SymInt) and len(self.items) == 1 and not isinstance(self.items[0], Piece):
+            # one byte repeated a symbolic number of times (padding): a fill piece
+            if core.CTX.branch(toint(n) <= 0):
+                return SymSeq([], self.kind)
+            return SymSeq([Fill(self.items[0], toint(n))], self.kind)
         raise Unsupported("rope * symbolic")
+
+    __rmul__ = __mul__
 
     def norm(self):
         out = []
